@@ -559,7 +559,15 @@ func (p pieceWriter) Write(b []byte) (int, error) {
 		}
 		var m int
 		var err error
-		if piece%3 == 1 {
+		if bw, ok := p.w.(io.ByteWriter); ok && piece%4 == 3 {
+			// ... and, where the destination offers it, byte by byte (a varint-writing encoder)
+			for _, c := range b[:n] {
+				if err = bw.WriteByte(c); err != nil {
+					break
+				}
+				m++
+			}
+		} else if piece%3 == 1 {
 			// every third piece the way a text-producing encoder hands bytes over: io.WriteString (which uses the
 			// destination's WriteString method when it has one)
 			m, err = io.WriteString(p.w, string(b[:n]))
